@@ -488,9 +488,7 @@ type C03Plan struct {
 }
 
 func genC03(rt *rapid.T) any {
-	// at most two validators: with three or more, the proposer lists the reward payees of an
-	// epoch in map order, so a proposer on B's side would reproduce the honest block or not by chance
-	cfg := GenCfg(rt, 2)
+	cfg := GenCfg(rt, 3)
 	p := &C03Plan{Tree: TreePlan{Cfg: cfg, Warm: WarmupLen(cfg), Steps: GenSteps(rt, 4, 12, 3, 5)}}
 	n := rapid.IntRange(1, 10).Draw(rt, "nmut")
 	for i := 0; i < n; i++ {
@@ -909,7 +907,7 @@ func (x *c03Run) relayBlockToB(orig *types.Block, m *C03Mut) {
 		r.Count("fault.relay_block_consensus_mutation", 1)
 		if gh == oh {
 			l, va, vb := c03Diff(c03DigestBlock(orig), c03DigestBlock(got))
-			r.Violate("hash-unchanged", attr, "block %s: the relay changed %s (%s: %s -> %s) and the receiver computes the same block hash as for the original", w.name(oh), attr, l, va, vb)
+			r.Violate("hash-unchanged", m.Field, "block %s: the relay changed %s (%s: %s -> %s) and the receiver computes the same block hash as for the original", w.name(oh), attr, l, va, vb)
 			return
 		}
 	}
@@ -935,11 +933,11 @@ func (x *c03Run) relayBlockToB(orig *types.Block, m *C03Mut) {
 			// a garbage-signed (or wrong-bodied) copy is not the block: when B does not hold the
 			// honest one yet it must refuse the copy, and it must never keep it
 			if !wasStored && !orphan && perr == nil {
-				r.Violate("twin-accepted", attr, "block %s: a copy with %s was accepted by node B (no error) although B did not hold the honest block", w.name(oh), attr)
+				r.Violate("twin-accepted", m.Field, "block %s: a copy with %s was accepted by node B (no error) although B did not hold the honest block", w.name(oh), attr)
 				return
 			}
 			if !wasStored && after == nil {
-				r.Violate("twin-stored", attr, "block %s: a copy with %s was stored by node B", w.name(oh), attr)
+				r.Violate("twin-stored", m.Field, "block %s: a copy with %s was stored by node B", w.name(oh), attr)
 				return
 			}
 			r.Count("probe.twin_refused", 1)
@@ -947,7 +945,7 @@ func (x *c03Run) relayBlockToB(orig *types.Block, m *C03Mut) {
 				r.Count("probe.twin_after_original", 1)
 			}
 		}
-		x.checkStoredTwin(oh, attr, "after the relayed copy of "+w.name(oh))
+		x.checkStoredTwin(oh, m.Field, "after the relayed copy of "+w.name(oh))
 	}
 }
 
@@ -970,6 +968,7 @@ func (x *c03Run) proposeOnB(parent bc.Hash, ts uint64) *ProposeResult {
 	}
 	res.Validator = v.PubKey
 	n.SetKey(w.keyByPub[v.PubKey])
+	n.setCoinbaseProgram(w.Keys[w.keyByPub[v.PubKey].Idx%2].Program) // as the producer side does (identity_prod.go)
 	for _, tx := range x.bPooled {
 		id := tx.ID
 		if d, err := x.b.Pool.GetTransaction(&id); err == nil {
